@@ -165,7 +165,9 @@ class HostKeyTest:
                 try:
                     kex_group.send_init(s)
                     kex_reply = kex_group.recv_reply(s)
-                    raw_hostkey_bytes = kex_reply if kex_reply is not None else b''
+                    if kex_reply is None:
+                        raise KexDHException('No key exchange reply was received (connection closed or timed out).')
+                    raw_hostkey_bytes = kex_reply
                 except KexDHException:
                     msg = "Failed to parse server's host key."
                     if not out.debug:
